@@ -28,7 +28,7 @@ ASSUMPTIONS = ['species come from a pool of 7 side species + 6 transition-state 
                'coefficients, so exactness on this lattice carries to all coefficients up to rounding',
                'a getter is exercised for a state only when every species of that state implements it itself '
                '(Nasa/Shomate/Nasa9: Cp, H, S, G; BEP: no electronic energy)',
-               'ChemkinReaction needs reactants with a .phase attribute: StatMech reactants are recorded as refused',
+               'ChemkinReaction reads species.phase at construction: configurations whose constructor refuses a StatMech species are recorded as refused',
                'clamped ChemkinReaction/SurfaceReaction get_H(oRT)_act / get_G(oRT)_act belong to C09']
 EXPLANATION = ('deviation-bounded exhaustive enumeration of reaction configurations executed on the real classes; '
                'linear reference model from the species getters')
@@ -220,8 +220,13 @@ def build(case):
         from pmutt.reaction import Reaction as cls
     elif case['cls'] == 'ChemkinReaction':
         from pmutt.reaction import ChemkinReaction as cls
-        if any(k in R.STATMECH_KEYS for k, _ in case['R']):
-            return None, 'chemkin-needs-phase'
+        # ChemkinReaction classifies itself from species.phase at construction; StatMech species have none
+        try:
+            return cls(**kwargs), states
+        except AttributeError as e:
+            if "no attribute 'phase'" in str(e) and any(k in R.STATMECH_KEYS for k, _ in case['R'] + case['P']):
+                return None, 'chemkin-needs-phase'
+            raise
     else:
         from pmutt.omkm.reaction import SurfaceReaction as cls
     return cls(**kwargs), states
@@ -384,7 +389,7 @@ def check_case(case, ctx):
     rxn, states = build(case)
     ctx.trace()
     if rxn is None:
-        ctx.refuse('ChemkinReaction: StatMech reactants have no .phase')
+        ctx.refuse('ChemkinReaction: StatMech species have no .phase')
         ctx.tag('refused:chemkin-needs-phase')
         return
     _tags(case, ctx)
